@@ -17,6 +17,7 @@ kernel.HASHSEED = os.environ.get("PYTHONHASHSEED", "0")
 
 WORLDS = {
     "C15": "worlds.c15",
+    "C06": "worlds.c06",
 }
 
 # per-property tier sizes: (runs, wall budget seconds, per-run timeout)
